@@ -3,7 +3,7 @@
  * Built by checks/C16.py with  ctx.build.harness(variant, "c16io", [this file],
  *      extra_ld=["-Wl,--wrap=read,--wrap=write,--wrap=send,--wrap=recv,--wrap=sendto,--wrap=recvfrom,
  *                 --wrap=epoll_ctl,--wrap=epoll_wait"])
- * Session 3: also --wrap=waitpid,pipe,close,dup,fcntl,posix_spawn,posix_spawnp,posix_spawn_file_actions_adddup2,
+ * Session 3: also --wrap=waitpid,pipe,close,dup,fcntl,fcntl64,posix_spawn,posix_spawnp,posix_spawn_file_actions_adddup2,
  *      posix_spawn_file_actions_addclose (descriptor plumbing of os/spawn / os/execute: `K` lines; status-word injection).
  * `#include "ev.c"` makes the file-static StateRead / StateWrite visible, so every intercepted syscall is logged
  * together with the state-machine fields the Lean model has (start / bytes_left / bytes_read / is_chunk / mode).
@@ -86,8 +86,10 @@ static uint64_t rnd(void) {
 static int chance(int permille) { return permille > 0 && (int)(rnd() % 1000) < permille; }
 static int envint(const char *k, int d) { const char *v = getenv(k); return v ? atoi(v) : d; }
 
+static void summary2(FILE *f);
 static void summary(void) {
     if (!trace) return;
+    summary2(trace);
     fprintf(trace, "F calls=%ld eagain=%ld short=%ld eintr=%ld err=%ld real_eagain=%ld real_partial=%ld rearm=%ld\n",
             n_calls, n_eagain, n_short, n_eintr, n_err, n_real_eagain, n_real_partial, n_rearm);
     fflush(trace);
@@ -306,6 +308,7 @@ static int klog_on = 0;          /* set between (c16/klog true) and (c16/klog fa
 /* status-word injection: the next waitpid that reaps `pid` (or any pid when registered for -1) reports `word` instead */
 #define MAXINJ 64
 static volatile int inj_pid[MAXINJ], inj_word[MAXINJ], inj_used[MAXINJ];
+static long n_waitpid = 0, n_waitpid_opts = 0, n_waitpid_subst = 0;
 
 pid_t __wrap_waitpid(pid_t pid, int *status, int options) {
     c16_init();
@@ -323,13 +326,23 @@ pid_t __wrap_waitpid(pid_t pid, int *status, int options) {
         }
     }
     if (status) *status = st;
-    if (trace) fprintf(trace, "Q waitpid options=%d ret=%d status=%d kernel=%d\n", options, r > 0 ? 1 : (int) r, st, orig);
+    /* called from the reaper thread: nothing is written to the trace here (a line would land in the middle of an `S` line
+     * of the main thread); counted and reported in the summary */
+    __atomic_add_fetch(&n_waitpid, 1, __ATOMIC_RELAXED);
+    if (options != 0) __atomic_add_fetch(&n_waitpid_opts, 1, __ATOMIC_RELAXED);
+    if (st != orig) __atomic_add_fetch(&n_waitpid_subst, 1, __ATOMIC_RELAXED);
     errno = e;
     return r;
 }
 
+static int fail_pipe_countdown = 0;
 int __wrap_pipe(int fds[2]) {
     c16_init();
+    if (fail_pipe_countdown > 0 && --fail_pipe_countdown == 0) {
+        errno = EMFILE;
+        KLOG("pipefail errno=%d", errno);
+        return -1;
+    }
     int r = __real_pipe(fds);
     if (r == 0) KLOG("pipe r=%d w=%d", fds[0], fds[1]); else KLOG("pipefail errno=%d", errno);
     return r;
@@ -344,12 +357,23 @@ int __wrap_dup(int fd) {
     KLOG("dup fd=%d ret=%d", fd, r);
     return r;
 }
+static int fcntl_common(int fd, int cmd, long arg, int r);
+int __real_fcntl64(int, int, ...);
+int __wrap_fcntl64(int fd, int cmd, ...) {
+    va_list ap;
+    va_start(ap, cmd);
+    long arg = va_arg(ap, long);
+    va_end(ap);
+    return fcntl_common(fd, cmd, arg, __real_fcntl64(fd, cmd, arg));
+}
 int __wrap_fcntl(int fd, int cmd, ...) {
     va_list ap;
     va_start(ap, cmd);
     long arg = va_arg(ap, long);
     va_end(ap);
-    int r = __real_fcntl(fd, cmd, arg);
+    return fcntl_common(fd, cmd, arg, __real_fcntl(fd, cmd, arg));
+}
+static int fcntl_common(int fd, int cmd, long arg, int r) {
     if (cmd == F_SETFD) KLOG("setfd fd=%d cloexec=%d ret=%d", fd, (int)(arg & FD_CLOEXEC) ? 1 : 0, r);
     else if (cmd == F_SETFL) KLOG("setfl fd=%d nonblock=%d ret=%d", fd, (arg & O_NONBLOCK) ? 1 : 0, r);
     else if (cmd == F_DUPFD || cmd == F_DUPFD_CLOEXEC) KLOG("dupfd fd=%d min=%ld cloexec=%d ret=%d", fd, arg, cmd == F_DUPFD_CLOEXEC, r);
@@ -379,7 +403,11 @@ int __wrap_posix_spawnp(pid_t *pid, const char *path, const posix_spawn_file_act
     return r;
 }
 
-/* the descriptor table of this process: "fd:cloexec:target" for every open descriptor, in fd order */
+static void summary2(FILE *f) {
+    fprintf(f, "W waitpid=%ld nonzero_options=%ld substituted=%ld\n", n_waitpid, n_waitpid_opts, n_waitpid_subst);
+}
+
+/* the descriptor table of this process: "fd:cloexec:accmode:target" for every open descriptor, in fd order */
 static void fd_table(FILE *out, const char *sep) {
     int fds[1024], n = 0;
     DIR *d = opendir("/proc/self/fd");
@@ -401,7 +429,8 @@ static void fd_table(FILE *out, const char *sep) {
         tgt[k] = 0;
         for (ssize_t q = 0; q < k; q++) if (tgt[q] == ' ' || tgt[q] == '\n') tgt[q] = '_';
         int fl = __real_fcntl(fds[i], F_GETFD, 0L);
-        fprintf(out, "%s%d:%d:%s", i ? sep : "", fds[i], (fl & FD_CLOEXEC) ? 1 : 0, tgt);
+        int acc = __real_fcntl(fds[i], F_GETFL, 0L);
+        fprintf(out, "%s%d:%d:%d:%s", i ? sep : "", fds[i], (fl & FD_CLOEXEC) ? 1 : 0, acc < 0 ? 9 : (acc & O_ACCMODE), tgt);
     }
 }
 
@@ -504,6 +533,13 @@ static Janet c16_fail_next_spawn(int32_t argc, Janet *argv) {
     return janet_wrap_nil();
 }
 
+/* (c16/fail-pipe n) -> the n-th pipe() from now fails with EMFILE */
+static Janet c16_fail_pipe(int32_t argc, Janet *argv) {
+    janet_fixarity(argc, 1);
+    fail_pipe_countdown = janet_getinteger(argv, 0);
+    return janet_wrap_nil();
+}
+
 /* (c16/fd x) -> descriptor number of a core/stream or core/file */
 static Janet c16_fd(int32_t argc, Janet *argv) {
     janet_fixarity(argc, 1);
@@ -529,6 +565,7 @@ static const JanetReg c16_cfuns[] = {
     {"c16/status-for", c16_status_for, NULL},
     {"c16/klog", c16_klog, NULL},
     {"c16/fail-next-spawn", c16_fail_next_spawn, NULL},
+    {"c16/fail-pipe", c16_fail_pipe, NULL},
     {"c16/fd", c16_fd, NULL},
     {"c16/fds", c16_fds, NULL},
     {"c16/note", c16_note, NULL},
